@@ -197,6 +197,42 @@ std::string run_exec_per(const Cmd& c){
     return out;
 }
 
+//   exectop d H B mode k stop nf f_1..f_nf N nums...   : upward pass of the real tree, then the top tree alone, once per flag mask
+// output: dump || trace (segments separated by --)
+template <long D>
+std::string run_exec_top(const Cmd& c){
+    using Conf = TbfSpacialConfiguration<double, D>;
+    using Space = TbfMortonSpaceIndex<D, Conf, true>;
+    using Tree = TbfTree<double, double, D, unsigned long, 1, TagVal, TagVal, Space>;
+    using Kernel = TraceKernel<double, Space>;
+    using Algo = TbfAlgorithm<double, Kernel, Space>;
+    using Top = TopExposed<TbfAlgorithmPeriodicTopTree<double, Kernel, TagVal, TagVal, Space>>;
+    const long H = c.L(2), B = c.L(3), mode = c.L(4), k = c.L(5), stop = c.L(6), nf = c.L(7);
+    size_t a = 8;
+    std::vector<int> flags; for(long j = 0 ; j < nf ; ++j) flags.push_back(int(c.L(a++)));
+    const long N = c.L(a++);
+    std::array<double, D> w, ctr; for(long j = 0 ; j < D ; ++j){ w[j] = 1; ctr[j] = 0.5; }
+    Conf conf(H, w, ctr);
+    const double scale = 16.0 * double(1L << (H-1));
+    std::vector<std::array<double, D>> pos(N);
+    for(long i = 0 ; i < N ; ++i) for(long j = 0 ; j < D ; ++j) pos[i][j] = double(c.L(a++)) / scale;
+    Tree tree(conf, pos, B < 0 ? -1 : B, mode != 0);
+    tag_cells(tree);
+    TraceSink sink; trace_sink() = &sink;
+    sink.shiftAware = true; sink.topK = k; sink.leafLevel = H - 1;
+    std::string out = dump(tree);
+    {
+        std::unique_ptr<Algo> algo(new Algo(conf, stop));
+        std::unique_ptr<Top> top(new Top(conf, k));
+        top->tag();
+        algo->execute(tree, TbfAlgorithmUtils::TbfBottomToTopStages); sink.add("--");
+        for(int f : flags){ sink.inTop = true; top->execute(tree, f); sink.inTop = false; sink.add("--"); }
+    }
+    out += " || " + join_trace(sink);
+    trace_sink() = nullptr;
+    return out;
+}
+
 //   execpertsm d H B mode k stop Ns <nums> Nt <nums>     (target/source periodic sequence with the TSM top tree)
 template <long D>
 std::string run_exec_per_tsm(const Cmd& c){
@@ -246,6 +282,45 @@ std::string run_exec_per_tsm(const Cmd& c){
     trace_sink() = nullptr;
     return out;
 }
+//   exectoptsm d H B mode k stop nf f_1..f_nf Ns <nums> Nt <nums>
+template <long D>
+std::string run_exec_top_tsm(const Cmd& c){
+    using Conf = TbfSpacialConfiguration<double, D>;
+    using Space = TbfMortonSpaceIndex<D, Conf, true>;
+    using Tree = TbfTreeTsm<double, double, D, unsigned long, 1, TagVal, TagVal, Space>;
+    using Kernel = TraceKernel<double, Space>;
+    using Algo = TbfAlgorithmTsm<double, Kernel, Space>;
+    using Top = TopExposed<TbfAlgorithmPeriodicTopTreeTsm<double, Kernel, TagVal, TagVal, Space>>;
+    const long H = c.L(2), B = c.L(3), mode = c.L(4), k = c.L(5), stop = c.L(6), nf = c.L(7);
+    size_t a = 8;
+    std::vector<int> flags; for(long j = 0 ; j < nf ; ++j) flags.push_back(int(c.L(a++)));
+    std::array<double, D> w, ctr; for(long j = 0 ; j < D ; ++j){ w[j] = 1; ctr[j] = 0.5; }
+    Conf conf(H, w, ctr);
+    const double scale = 16.0 * double(1L << (H-1));
+    const long Ns = c.L(a++);
+    std::vector<std::array<double, D>> ps(Ns);
+    for(long i = 0 ; i < Ns ; ++i) for(long j = 0 ; j < D ; ++j) ps[i][j] = double(c.L(a++)) / scale;
+    const long Nt = c.L(a++);
+    std::vector<std::array<double, D>> pt(Nt);
+    for(long i = 0 ; i < Nt ; ++i) for(long j = 0 ; j < D ; ++j) pt[i][j] = double(c.L(a++)) / scale;
+    Tree tree(conf, ps, pt, B < 0 ? -1 : B, mode != 0);
+    tree.applyToAllCellsSource([](long level, auto&& h, auto&& m, auto&&){ if(m){ m->get().tagLevel1 = level + 1; m->get().tagIndex = h.spaceIndex; } });
+    tree.applyToAllCellsTarget([](long level, auto&& h, auto&&, auto&& l){ if(l){ l->get().tagLevel1 = level + 1; l->get().tagIndex = h.spaceIndex; } });
+    TraceSink sink; trace_sink() = &sink;
+    sink.shiftAware = true; sink.topK = k; sink.leafLevel = H - 1;
+    std::string out = dump_parts(H, [&](long l) -> const auto& { return tree.getCellGroupsAtLevelSource(l); }, tree.getParticleGroupsSource());
+    out += " || " + dump_parts(H, [&](long l) -> const auto& { return tree.getCellGroupsAtLevelTarget(l); }, tree.getParticleGroupsTarget());
+    {
+        std::unique_ptr<Algo> algo(new Algo(conf, stop));
+        std::unique_ptr<Top> top(new Top(conf, k));
+        top->tag();
+        algo->execute(tree, TbfAlgorithmUtils::TbfBottomToTopStages); sink.add("--");
+        for(int f : flags){ sink.inTop = true; top->execute(tree, f); sink.inTop = false; sink.add("--"); }
+    }
+    out += " || " + join_trace(sink);
+    trace_sink() = nullptr;
+    return out;
+}
 #endif // FAMILY_PER
 #ifdef FAMILY_TSM
 // ---- target/source variant ----
@@ -270,10 +345,32 @@ std::string run_exec_tsm(const Cmd& c){
     const long Nt = c.L(a++);
     std::vector<std::array<double, D>> pt(Nt);
     for(long i = 0 ; i < Nt ; ++i) for(long k = 0 ; k < D ; ++k) pt[i][k] = double(c.L(a++)) / scale;
-    Tree tree(conf, ps, pt, B < 0 ? -1 : B, mode != 0);
+    // exectsmrb: the tree is first built with every particle at the position of its successor (cyclically, sources and targets
+    // separately), executed once, then every particle is moved to its own position in place and the tree is rebuilt: the second
+    // execution must be the one of a tree built from the final positions, and the targets keep the results of the first
+    const bool rb = (c.tok[0] == "exectsmrb");
+    auto ps0 = ps, pt0 = pt;
+    if(rb){
+        for(long i = 0 ; i < Ns ; ++i) ps0[i] = ps[(i + 1) % Ns];
+        for(long i = 0 ; i < Nt ; ++i) pt0[i] = pt[(i + 1) % Nt];
+    }
+    Tree tree(conf, ps0, pt0, B < 0 ? -1 : B, mode != 0);
+    TraceSink sink; trace_sink() = &sink;
+    if(rb){
+        {
+            std::unique_ptr<Algo> algo0(new Algo(conf, stop));
+            sink.record = false;
+            algo0->execute(tree);
+            sink.record = true;
+        }
+        tree.applyToAllLeavesSource([&](auto&& h, const long* idx, auto&& d, auto&&){
+            for(long p = 0 ; p < h.nbParticles ; ++p) for(long j = 0 ; j < D ; ++j) d[j][p] = ps[idx[p]][j]; });
+        tree.applyToAllLeavesTarget([&](auto&& h, const long* idx, auto&& d, auto&&){
+            for(long p = 0 ; p < h.nbParticles ; ++p) for(long j = 0 ; j < D ; ++j) d[j][p] = pt[idx[p]][j]; });
+        tree.rebuild();
+    }
     tree.applyToAllCellsSource([](long level, auto&& h, auto&& m, auto&&){ if(m){ m->get().tagLevel1 = level + 1; m->get().tagIndex = h.spaceIndex; } });
     tree.applyToAllCellsTarget([](long level, auto&& h, auto&&, auto&& l){ if(l){ l->get().tagLevel1 = level + 1; l->get().tagIndex = h.spaceIndex; } });
-    TraceSink sink; trace_sink() = &sink;
     std::string out = dump_parts(H, [&](long l) -> const auto& { return tree.getCellGroupsAtLevelSource(l); }, tree.getParticleGroupsSource());
     out += " || " + dump_parts(H, [&](long l) -> const auto& { return tree.getCellGroupsAtLevelTarget(l); }, tree.getParticleGroupsTarget());
     {
@@ -307,6 +404,22 @@ int main(int argc, char** argv){
             }
             return "?dim";
         }
+        if(c.tok[0] == "exectop"){
+            switch(c.L(1)){
+            case 1: return run_exec_top<1>(c);
+            case 2: return run_exec_top<2>(c);
+            case 3: return run_exec_top<3>(c);
+            }
+            return "?dim";
+        }
+        if(c.tok[0] == "exectoptsm"){
+            switch(c.L(1)){
+            case 1: return run_exec_top_tsm<1>(c);
+            case 2: return run_exec_top_tsm<2>(c);
+            case 3: return run_exec_top_tsm<3>(c);
+            }
+            return "?dim";
+        }
         if(c.tok[0] == "execper"){
             switch(c.L(1)){
             case 1: return run_exec_per<1>(c);
@@ -337,7 +450,7 @@ int main(int argc, char** argv){
         }
 #endif
 #ifdef FAMILY_TSM
-        if(c.tok[0] == "exectsm"){
+        if(c.tok[0] == "exectsm" || c.tok[0] == "exectsmrb"){
             switch(d*2 + (per?1:0)){
             case 2: return run_exec_tsm<1,false>(c);
             case 4: return run_exec_tsm<2,false>(c);
